@@ -163,8 +163,84 @@ Definition check_hcase (c : hcase) : bool :=
   let '(g, anyd, ops, answers) := c in
   forall2b opt_answer_eqb (snd (run true anyd {| gr := g; ca := [] |} ops)) answers.
 
-Inductive case := CProviders (c : pcase) | CHistory (c : hcase).
+(* ------------------------------------------------------------------------------------------ *)
+(* the providers' own lru_cache in front of _get_generators_for.  The cache is cleared by
+   clear_generator_cache (called by TestCluster.update_return_type when the generator table
+   changes); graph updates cannot reach it (add_subclass_edge knows no provider). *)
+Inductive pkind := PHeur | PRand.
+
+Definition offered (k : pkind) (g : graph) (anyd : N) (prims : list cls) (tb : table) (typ : ty) : list gen :=
+  match k with
+  | PHeur => sort_dedup (offered_h g anyd prims tb typ)
+  | PRand => sort_dedup (offered_r g tb typ)
+  end.
+
+Inductive pop :=
+| PQuery (typ : ty)                    (* provider._get_generators_for(typ) *)
+| PTable (tb : table) (clear : bool)   (* the table changed; clear = clear_generator_cache ran *)
+| PEdge (p c : cls)                    (* add_subclass_edge on the type system *)
+| PClear.                              (* clear_generator_cache *)
+
+Record pstate := { pgr : graph; ptb : table; pca : list (ty * list gen) }.
+
+Fixpoint pcache_get (c : list (ty * list gen)) (t : ty) : option (list gen) :=
+  match c with
+  | [] => None
+  | (k, a) :: r => if ty_eqb t k then Some a else pcache_get r t
+  end.
+
+Definition pstep (k : pkind) (anyd : N) (prims : list cls) (s : pstate) (o : pop)
+  : pstate * option (list gen) :=
+  match o with
+  | PQuery typ =>
+      match pcache_get (pca s) typ with
+      | Some a => (s, Some a)
+      | None => let a := offered k (pgr s) anyd prims (ptb s) typ in
+                ({| pgr := pgr s; ptb := ptb s; pca := (typ, a) :: pca s |}, Some a)
+      end
+  | PTable tb clear => ({| pgr := pgr s; ptb := tb; pca := if clear then [] else pca s |}, None)
+  | PEdge p c =>
+      if has_edge (pgr s) p c then (s, None)
+      else ({| pgr := add_edge (pgr s) p c; ptb := ptb s; pca := pca s |}, None)
+  | PClear => ({| pgr := pgr s; ptb := ptb s; pca := [] |}, None)
+  end.
+
+Fixpoint prun (k : pkind) (anyd : N) (prims : list cls) (s : pstate) (ops : list pop)
+  : pstate * list (option (list gen)) :=
+  match ops with
+  | [] => (s, [])
+  | o :: r =>
+      let '(s1, a) := pstep k anyd prims s o in
+      let '(s2, l) := prun k anyd prims s1 r in (s2, a :: l)
+  end.
+
+Definition pfresh (k : pkind) (anyd : N) (prims : list cls) (s : pstate) : Prop :=
+  forall t a, In (t, a) (pca s) -> a = offered k (pgr s) anyd prims (ptb s) t.
+
+(* operations after which the code base invalidates the provider cache *)
+Definition disciplined (o : pop) : bool :=
+  match o with PTable _ c => c | PEdge _ _ => false | _ => true end.
+
+Definition opt_gens_eqb (a b : option (list gen)) : bool :=
+  match a, b with
+  | Some x, Some y => gens_eqb x y
+  | None, None => true
+  | _, _ => false
+  end.
+
+Record phcase := {
+  ph_kind : pkind; ph_graph : graph; ph_anyd : N; ph_prims : list cls; ph_table : table;
+  ph_ops : list pop; ph_answers : list (option (list gen))
+}.
+
+Definition check_phcase (c : phcase) : bool :=
+  forall2b opt_gens_eqb
+    (snd (prun (ph_kind c) (ph_anyd c) (ph_prims c)
+               {| pgr := ph_graph c; ptb := ph_table c; pca := [] |} (ph_ops c)))
+    (ph_answers c).
+
+Inductive case := CProviders (c : pcase) | CHistory (c : hcase) | CPHistory (c : phcase).
 Definition check_case (c : case) : bool :=
-  match c with CProviders p => check_pcase p | CHistory h => check_hcase h end.
+  match c with CProviders p => check_pcase p | CHistory h => check_hcase h | CPHistory h => check_phcase h end.
 
 End C26.
